@@ -139,11 +139,37 @@ var RaiseKinds = []struct {
 	Kind string
 	N    int
 }{
-	{"call-nonfn", 8}, {"member-nullish", 7}, {"unresolvable", 8}, {"array-length", 7}, {"number-format", 7},
+	{"call-nonfn", 8}, {"member-nullish", 7}, {"unresolvable", 8}, {"array-length", 7}, {"number-format", NumberFormatVariants},
 	{"eval-syntax", 5}, {"instanceof-in", 6}, {"json-cycle", 4}, {"uri", 2}, {"object-api", 7},
 	{"throw-native", 7 * 2 * 5}, {"throw-renamed", 7 * 3}, {"throw-prim", 7}, {"throw-object", 6},
 	{"syntax", 28},
 }
+
+// receivers of the bad radix / bad precision calls: ordinary numbers, NaN, the infinities, both zeros,
+// as primitives (variables, global names, a parenthesised literal) and as Number objects
+var numberReceivers = []struct {
+	src       string
+	mark      int // token at which the member expression starts (parentheses are not part of it)
+	nonFinite bool
+}{
+	{"num", 0, false}, {"n5", 0, false}, {"big", 0, false}, {"oNum", 0, false},
+	{"rNaN", 0, true}, {"NaN", 0, true}, {"oNaN", 0, true},
+	{"rInf", 0, true}, {"Infinity", 0, true}, {"rNegInf", 0, true}, {"oInf", 0, true}, {"oNegInf", 0, true},
+	{"rZero", 0, false}, {"rNegZero", 0, false}, {"( 0 )", 1, false}, {"oZero", 0, false}, {"oNegZero", 0, false},
+}
+
+const numberToStringCalls = 9 // the first entries of numberCalls are toString with a bad radix
+
+var numberCalls = []struct{ method, arg string }{
+	{"toString", "1"}, {"toString", "37"}, {"toString", "0"}, {"toString", "- 1"}, {"toString", "Infinity"},
+	{"toString", "- Infinity"}, {"toString", "NaN"}, {"toString", "1.9"}, {"toString", `"x"`},
+	{"toFixed", "101"}, {"toFixed", "- 1"}, {"toFixed", "Infinity"}, {"toFixed", "- Infinity"},
+	{"toExponential", "- 1"}, {"toExponential", "101"}, {"toExponential", "Infinity"},
+	{"toPrecision", "0"}, {"toPrecision", "101"}, {"toPrecision", "- 1"}, {"toPrecision", "Infinity"}, {"toPrecision", "NaN"},
+}
+
+// NumberFormatVariants is the number of (receiver, call) combinations of the number-format kind.
+var NumberFormatVariants = len(numberReceivers) * len(numberCalls)
 
 func simple(class, s string, markIdx int, heads ...string) raiseSpec {
 	return raiseSpec{class: class, exact: true, heads: heads, toks: func(at, end *Pos) []tk { return mk(s, markIdx, at, end) }}
@@ -209,10 +235,27 @@ func raiseOf(r Raise) raiseSpec {
 			sp.emptyID, sp.assign, sp.exact, sp.wild = KArrayMsg, true, false, KAccessor
 			return sp
 		}
-	case "number-format": // 15.7.4.2 (radix), 15.7.4.5/6/7 (digits): RangeError
-		src := []struct{ s, h string }{{"num . toString ( 1 )", "toString"}, {"num . toString ( 37 )", "toString"}, {"num . toFixed ( 101 )", "toFixed"},
-			{"num . toFixed ( - 1 )", "toFixed"}, {"num . toPrecision ( 0 )", "toPrecision"}, {"num . toExponential ( - 1 )", "toExponential"}, {"n5 . toString ( 0 )", "toString"}}[v%7]
-		return simple("RangeError", src.s, 0, src.h)
+	case "number-format":
+		// 15.7.4.2: ToInteger(radix) outside 2..36 -> RangeError, whatever the receiver (the test comes
+		// before the value is looked at). 15.7.4.5 steps 1-2: toFixed digits outside 0..20 -> RangeError,
+		// before the NaN test of step 4. 15.7.4.6 step 7 / 15.7.4.7 step 8: toExponential / toPrecision
+		// test the range only AFTER returning "NaN"/"Infinity" (steps 3-6 / 4-7), so non-finite receivers
+		// raise nothing there and are not combined with those two methods. Only arguments far outside
+		// any range an implementation may extend to (15.7.4.5 note) are used for the digit counts.
+		recv := numberReceivers[v%len(numberReceivers)]
+		call := numberCalls[(v/len(numberReceivers))%len(numberCalls)]
+		if recv.nonFinite && (call.method == "toExponential" || call.method == "toPrecision") {
+			call = numberCalls[(v/len(numberReceivers))%numberToStringCalls] // a bad radix instead
+		}
+		sp := raiseSpec{class: "RangeError", exact: true, heads: []string{call.method}}
+		sp.toks = func(at, end *Pos) []tk {
+			ts := words(recv.src)
+			ts[recv.mark].start = at
+			ts = append(ts, t("."), t(call.method), t("("))
+			ts = append(ts, words(call.arg)...)
+			return append(ts, tk{s: ")", end: end})
+		}
+		return sp
 	case "eval-syntax": // 15.1.2.1 step 2, 15.3.2.1 step 11: SyntaxError
 		src := []struct {
 			s string
@@ -914,6 +957,8 @@ const Prelude = `
 var ok = true, und, nul = null, n5 = 5, obj = { k: 1 }, str = "s", num = 1.5, tmp, __obs;
 var cyc = {}; cyc.self = cyc; var cycArr = []; cycArr[0] = cycArr;
 var arr = [1], arr2 = [2, 1], arr0 = [], frozen = Object.freeze({});
+var big = 1e21, oNum = new Number(255), rNaN = NaN, oNaN = new Number(NaN), rInf = Infinity, rNegInf = -Infinity;
+var oInf = new Number(Infinity), oNegInf = new Number(-Infinity), rZero = 0, rNegZero = -0, oZero = new Number(0), oNegZero = new Number(-0);
 function noop() {} function pick(f) { return f; } var ev = eval;
 function MyErr(m) { this.message = m; } MyErr.prototype = new Error(); MyErr.prototype.name = "MyErr"; MyErr.prototype.constructor = MyErr;
 function __probe(e) {
